@@ -516,7 +516,14 @@ func (q *Tagged) addFile(file *sortedFile) {
 
 func (q *Tagged) removeFile(file *sortedFile) {
 	if q.headFile[file.group.name] == file {
-		q.headFile[file.group.name] = file.next
+		if file.next != nil {
+			q.headFile[file.group.name] = file.next
+		} else {
+			// Nothing follows: fall back to the place holder before it (if any),
+			// which is kept at the head only so that whatever comes next - for
+			// instance this very file, pushed again - still names it as "prev"
+			q.headFile[file.group.name] = file.prev
+		}
 	}
 	delete(q.byFile, file.orig.GetName())
 }
